@@ -204,7 +204,49 @@ func run(repo string) (string, error) {
 		return "", err
 	}
 
-	s := ex.Header("QueryLoopFacts", "dosnode/dos_query_handler.go (queryLoop, handleQuery), dosnode/dos_stages.go (dispatchSign)")
+	// recoverSign: the deferred calls of its goroutine in source order (they run in reverse), and the
+	// body of drainSigns, which keeps the registered reply channel served after the stage returned
+	rsd := ex.FuncDecl(stages, "", "recoverSign")
+	if rsd == nil {
+		return "", fmt.Errorf("recoverSign not found")
+	}
+	var rsParams, rsDefers []string
+	for _, p := range rsd.Type.Params.List {
+		for _, nm := range p.Names {
+			rsParams = append(rsParams, nm.Name)
+		}
+	}
+	goN := 0
+	ast.Inspect(rsd, func(nd ast.Node) bool {
+		if g, ok := nd.(*ast.GoStmt); ok {
+			if fl, ok := g.Call.Fun.(*ast.FuncLit); ok {
+				goN++
+				for _, st := range fl.Body.List { // top level of the goroutine only
+					if d, ok := st.(*ast.DeferStmt); ok {
+						rsDefers = append(rsDefers, src(fset2, d.Call))
+					}
+				}
+			}
+		}
+		return true
+	})
+	if goN != 1 {
+		return "", fmt.Errorf("recoverSign: %d goroutines", goN)
+	}
+	var drain []string
+	var drainParams []string
+	if dd := ex.FuncDecl(stages, "", "drainSigns"); dd != nil {
+		for _, p := range dd.Type.Params.List {
+			for _, nm := range p.Names {
+				drainParams = append(drainParams, nm.Name)
+			}
+		}
+		wd := &walker{fset: fset2}
+		wd.stmts(dd.Body.List, 0)
+		drain = wd.lines
+	}
+
+	s := ex.Header("QueryLoopFacts", "dosnode/dos_query_handler.go (queryLoop, handleQuery), dosnode/dos_stages.go (dispatchSign, recoverSign, drainSigns)")
 	s += "namespace Dos.Gen.QueryLoopFacts\n"
 	s += "/-- control skeleton of queryLoop (logging and defers left out), indentation = nesting -/\n"
 	s += leanList("queryLoop", w.lines)
@@ -218,6 +260,12 @@ func run(repo string) (string, error) {
 	s += fmt.Sprintf("def registeredRequestId : String := %s\n", ex.LeanStr(reg))
 	s += fmt.Sprintf("def registeredReply : String := %s\n", ex.LeanStr(regReply))
 	s += fmt.Sprintf("def registeredCtx : String := %s\n", ex.LeanStr(regCtx))
+	s += "/-- recoverSign: parameter names; the deferred calls of its goroutine in source order (run in reverse) -/\n"
+	s += leanList("recoverSignParams", rsParams)
+	s += leanList("recoverSignDefers", rsDefers)
+	s += "/-- drainSigns (absent = empty lists): parameter names and control skeleton -/\n"
+	s += leanList("drainSignsParams", drainParams)
+	s += leanList("drainSigns", drain)
 	s += "end Dos.Gen.QueryLoopFacts\n"
 	return s, nil
 }
